@@ -424,6 +424,9 @@ public:
             size_t eq = op.find('=');
             if (eq != std::string::npos) { want = atoi(op.c_str() + eq + 2); op = op.substr(0, eq); }
             std::vector<std::string> args(tk.begin() + 1, tk.end());
+            // trailing "!n<k>" tokens: handles that die when the operation succeeds (nodes the library releases)
+            std::vector<int> dies;
+            while (!args.empty() && args.back().size() > 2 && args.back()[0] == '!') { dies.push_back(atoi(args.back().c_str() + 2)); args.pop_back(); }
             if (op == "kill") { for (size_t i = 0; i < args.size(); i++) kill(hnum(args[i])); continue; }
             if (op == "#") continue;
             ud.clear();
@@ -438,6 +441,7 @@ public:
             catch (const XMLException& e) { outcome = "xml:" + u8(e.getType()); }
             catch (const std::exception& e) { outcome = "foreign:" + demangle(typeid(e).name()); }
             catch (...) { std::type_info* t = abi::__cxa_current_exception_type(); outcome = "foreign:" + (t ? demangle(t->name()) : std::string("?")); }
+            if (outcome == "ok") for (size_t i = 0; i < dies.size(); i++) kill(dies[i]);
             bool last = (li + 1 == lines.size());
             // set-up operations of enumerated scripts: nothing is logged while they succeed
             if (opIndex < quietN && outcome == "ok" && !last) { opIndex++; continue; }
